@@ -529,6 +529,8 @@ impl PW {
             if !ok {
                 let p = Self::prop_of(&sp);
                 let t = if n > 1 { format!("{p},C12") } else { p.to_string() };
+                // C13: a batched stream's batches, applied in order, rebuild the right view as well
+                let t = if self.batched { format!("{t},C13") } else { t };
                 sink.oracle_fail(&t, &format!("at Pending, stage {k} ({}, parameter {:?}) shows {got:?}; the stage below shows {below:?}", sp.text(), self.params[k]));
             }
         }
@@ -707,10 +709,12 @@ pub fn run(args: &Args, sink: &mut Sink) {
                 for kind in 0..3 {
                     let sp = match kind { 0 => Spec::DHeadI(old, 0), 1 => Spec::DTailI(old, 0), _ => Spec::DSkipI(old, 0) };
                     if kind == 1 && d2_region(old, new, len) { continue; } // known finding D2: confirmed separately below
+                    let mut outs = vec![];
                     for batched in [false, true] {
                         nb += 1;
-                        run_seq(sink, &format!("B{nb}"), 16, &init, batched, &[sp.clone()], &move |w, s| { w.pdrain(s); w.limit(s, 0, new); w.pdrain(s); w.direct(s, &Op::PushB(9)); w.pdrain(s); });
+                        outs.push(run_seq(sink, &format!("B{nb}"), 16, &init, batched, &[sp.clone()], &move |w, s| { w.pdrain(s); w.limit(s, 0, new); w.pdrain(s); w.direct(s, &Op::PushB(9)); w.pdrain(s); }));
                     }
+                    if outs[0] != outs[1] { sink.oracle_fail("C13", &format!("batched and unbatched {} deliver different diffs for the limit change {old} -> {new} on {len} items: {} vs {}", sp.text(), fmt_diffs(&outs[1]), fmt_diffs(&outs[0]))); }
                 }
             }
         }
